@@ -1462,7 +1462,7 @@ ReorderDataCallback(DataNode & node, void * userData)
    if (indexNode)
    {
       DataNodeRef childNodeRef;
-      if (indexNode->GetChild(node.GetNodeName(), childNodeRef).IsOK()) (void) indexNode->ReorderChild(childNodeRef, *static_cast<const String *>(userData), this);
+      if ((indexNode->GetChild(node.GetNodeName(), childNodeRef).IsOK())&&(indexNode->ReorderChild(childNodeRef, *static_cast<const String *>(userData), this).IsOK())) _indexingPresent = true;  // ReorderChild() may have created an index; disable optimization in GetDataCallback()
    }
    return node.GetDepth();
 }
